@@ -27,22 +27,26 @@ STOP_CODONS = ("TAA", "TAG", "TGA")
 
 RULE = (
     "scan family: (a) every string over {A,T,G} up to the tier's length bound (quick 9, thorough 10); "
-    "strings that contain an ORF are scanned on both strands for every record length in "
-    "{n, n+1, n+4} (thorough: n, n+1, n+2, n+3, n+5) with EVERY offset in [-L, L) (both the negative-offset and the "
-    "past-the-end convention for a window crossing the origin) plus record_length=None, and for every "
-    "minimum length in {0, each ORF length, each ORF length + 1} on a rotating subset of those "
-    "windows; strings without an ORF get both strands, minimum lengths {0, 3, 6, 9} on one rotating "
-    "window; (b) every codon-class string over {start, stop, other}^k, k <= 7 (thorough 8), with a prefix "
-    "and suffix of 0..2 bases, the concrete codons (all three starts and stops, near-miss codons, "
-    "lower/mixed case, N and other ambiguity codes) rotating deterministically, at minimum lengths "
-    "{0, each ORF length, +1}; (c) planted ORFs of 57..66 nt around minimum_length 60 in windows that "
-    "cross the origin at every phase; thorough adds seeded random strings <= 60 nt over ACGT+IUPAC, mixed "
-    "case, with planted ORFs, random offset/record length. "
-    "find family: fixed ORF-dense records (60/61/66 nt, ORFs on both strands in all frames), linear and "
-    "circular, whole record or an area (linear or origin-spanning), gene layouts: every single gene "
-    "[s,e), pairs of genes on a 4-nt grid (disjoint, touching, overlapping, nested, equal starts/ends), "
-    "origin-spanning genes; max_overlap in {0,1,3,4,10}, min_length in {6,9}; thorough adds triples and seeded "
-    "random layouts. "
+    "strings that contain an ORF are scanned on both strands at minimum_length 0 for every record length in "
+    "{n, n+1, n+4} (thorough: n, n+1, n+2, n+3, n+5) with EVERY offset in [-L, L) (both the negative-offset and "
+    "the past-the-end convention for a window crossing the origin) plus record_length=None with offsets 0, 1, 7, "
+    "and for every minimum length in {each ORF length, each ORF length + 1} on 8 rotating windows; strings "
+    "without an ORF get both strands, one rotating minimum length from {0, 3, 6, 9} on one rotating window; "
+    "(b) every codon-class string over {start, stop, other}^k, k <= 7 (thorough 8), at each of the three frame "
+    "shifts (prefix of 0..2 bases) with a rotating suffix of 0..2 bases, the concrete codons (all three starts and "
+    "stops, near-miss codons, lower/mixed case, N and other ambiguity codes) rotating deterministically, at "
+    "minimum lengths {0, each ORF length, +1} on 3 rotating windows; (c) planted ORFs of 57, 60, 63, 66 nt with "
+    "minimum_length in {59, 60, 61, 63, 64} in a window that crosses the origin at every offset, both strands; "
+    "thorough adds seeded random strings <= 60 nt over ACGT+IUPAC, mixed case, with planted ORFs, random "
+    "offset/record length. "
+    "find family: fixed ORF-dense records (60/64/65 nt, ORFs on both strands in all frames), linear and "
+    "circular, whole record or an area (linear or origin-spanning); gene layouts: every single gene [s,e) of "
+    "at least 3 nt, pairs of genes on a 4-nt grid (disjoint, touching, overlapping, nested, identical, equal "
+    "starts/ends), areas on an 8-nt grid with single genes on a 3-nt grid and pairs on an 8-nt grid, "
+    "origin-spanning areas (9 per record) with single genes, origin-spanning genes and mixtures, a gene with an "
+    "inner gene ending near its end, genes shorter than twice the allowed overlap next to the origin, an "
+    "origin-spanning gene plus a gene ending near the record end; max_overlap in {0,1,3,4,5,6,10}, min_length in "
+    "{6,9}; thorough adds finer grids, triples and seeded random layouts of up to 5 genes. "
     "A scan case is non-trivial when the scanned string contains at least one ORF (before the length "
     "filter); a find case is non-trivial when at least one ORF is returned and at least one gene exists. "
     "Distinct = distinct case dictionaries."
@@ -249,7 +253,7 @@ def eval_scan(case: dict[str, Any]) -> list[tuple[str, bool, str]]:
 # find_all_orfs
 # --------------------------------------------------------------------------------------------------
 CL_F_EXC = "find-no-unexpected-exception"
-CL_F_EXC_INNER = "find-no-unexpected-exception/origin-spanning-area-and-gene-with-inner-gene-ending-near-its-end"
+CL_F_EXC_SHORT = "find-no-unexpected-exception/origin-spanning-area-and-gene-shorter-than-twice-the-overlap"
 CL_F_GAP = "found-orf-overlaps-no-gene-by-more-than-allowed"
 CL_F_GAP_HIDDEN = "found-orf-overlaps-no-gene-by-more-than-allowed/gene-hidden-from-area-lookup"
 CL_F_GAP_INNER = "found-orf-overlaps-no-gene-by-more-than-allowed/gene-with-inner-gene-ending-near-its-end"
@@ -295,10 +299,11 @@ def longest_shared_run(own: set[int], other: set[int], size: int, circular: bool
 
 
 def _sort_key(gene: dict[str, Any], size: int) -> tuple[int, int]:
-    """Order of the genes in the record: by start then length, origin-spanning genes first."""
+    """Order of the genes in the record: by start then length; an origin-spanning gene counts as starting
+    before 0 by the length of its stretch before the origin."""
     parts = gene["parts"]
     if len(parts) > 1:
-        return (-size, sum(end - start for start, end in parts))
+        return (parts[0][0] - size, sum(end - start for start, end in parts))
     return (parts[0][0], parts[0][1] - parts[0][0])
 
 
@@ -324,25 +329,36 @@ def genes_hidden_from_area_lookup(case: dict[str, Any]) -> set[int]:
     return hidden
 
 
+def _envelope(gene: dict[str, Any]) -> tuple[int, int]:
+    """lowest and highest coordinate of a gene (for an origin-spanning gene: 0 and the record length)"""
+    return min(start for start, _ in gene["parts"]), max(end for _, end in gene["parts"])
+
+
 def genes_with_inner_gene_near_end(case: dict[str, Any]) -> set[int]:
-    """Indices of genes A of which some part [a_start, a_end) contains the end of a part of another
-    gene B that starts no earlier and ends fewer than 2 * max_overlap bases before a_end."""
+    """Indices of genes A whose span from lowest to highest coordinate [a_start, a_end) contains the end of
+    another gene B (also taken from lowest to highest coordinate) that starts no earlier and ends fewer
+    than 2 * max_overlap bases before a_end."""
     outer: set[int] = set()
     overlap = case["ov"]
     for i, first in enumerate(case["genes"]):
+        a_start, a_end = _envelope(first)
         for j, second in enumerate(case["genes"]):
             if i == j:
                 continue
-            for a_start, a_end in first["parts"]:
-                for b_start, b_end in second["parts"]:
-                    if a_start <= b_start and a_end - 2 * overlap < b_end < a_end:
-                        outer.add(i)
+            b_start, b_end = _envelope(second)
+            if a_start <= b_start and a_end - 2 * overlap < b_end < a_end:
+                outer.add(i)
     return outer
 
 
+def has_gene_shorter_than_twice_overlap(case: dict[str, Any]) -> bool:
+    return any(_envelope(gene)[1] - _envelope(gene)[0] < 2 * case["ov"] for gene in case["genes"])
+
+
 def _find_exception_clause(case: dict[str, Any]) -> str:
-    if case.get("area") and len(case["area"]) > 1 and genes_with_inner_gene_near_end(case):
-        return CL_F_EXC_INNER
+    if case.get("area") and len(case["area"]) > 1:
+        if has_gene_shorter_than_twice_overlap(case):
+            return CL_F_EXC_SHORT
     return CL_F_EXC
 
 
@@ -697,6 +713,39 @@ def gen_find(tier: str) -> Iterator[dict[str, Any]]:
                             genes = [_gene(o_start, o_end), _gene(i_start, i_end, -1)]
                             yield _find_case(rec, True, genes, area, 6, overlap)
                             yield _find_case(rec, True, genes + [_gene(3, 9)], area, 6, overlap)
+    # FE: origin-spanning area and genes shorter than twice the allowed overlap next to the origin
+    for name in ("A4", "B5", "C3") if thorough else ("A4", "C3"):
+        rec = recs[name]
+        size = len(rec)
+        area = [[size - 28, size], [0, 22]]
+        for overlap in (3, 5, 10):
+            for t_start, t_end in ((size - 6, size - 2), (size - 4, size), (size - 9, size - 4), (2, 6), (0, 3), (4, 12)):
+                for other in ((size - 25, size - 12), (size - 20, size - 15), (8, 18), (size - 27, size - 7)):
+                    yield _find_case(rec, True, [_gene(t_start, t_end), _gene(*other, -1)], area, 6, overlap)
+                    yield _find_case(rec, True, [_gene(t_start, t_end), _gene(*other, -1), _gene(size - 3, size, -1)],
+                                     area, 6, overlap)
+    # FG: two origin-spanning genes (one inside the other) and an area that only the outer one reaches
+    for name in ("A4", "B5", "C3"):
+        rec = recs[name]
+        size = len(rec)
+        for o_start, o_end in ((size - 17, 12), (size - 20, 7), (size - 8, 19)):
+            for i_start, i_end in ((size - 2, 5), (size - 1, 2), (size - 5, 6)):
+                if i_start < o_start or i_end > o_end:
+                    continue
+                for area in ([[7, size - 9]], [[o_end - 5, o_start + 4]], [[size - 30, size], [0, 25]]):
+                    for overlap in (0, 1):
+                        genes = [_origin_gene(o_start, o_end, size, 1), _origin_gene(i_start, i_end, size, -1)]
+                        yield _find_case(rec, True, genes, area, 6, overlap)
+    # FF: whole record, origin-spanning gene and a gene ending near the record end
+    for name in ("A4", "B5"):
+        rec = recs[name]
+        size = len(rec)
+        for o_start, o_end in ((size - 18, 1), (size - 9, 3), (size - 30, 8)):
+            for back in (1, 4, 9, 15):
+                for span in (6, 12, 25):
+                    for overlap in (0, 3, 10):
+                        genes = [_origin_gene(o_start, o_end, size, -1), _gene(size - back - span, size - back)]
+                        yield _find_case(rec, True, genes, None, 6, overlap)
     if thorough:
         # triples on a coarse grid, whole record
         rec = recs["B"]
@@ -803,6 +852,7 @@ FINDING_CLASSES: dict[str, Any] = {
     "C15-F1": lambda clause, case: clause == CL_EXACT,
     "C15-F2": lambda clause, case: clause in (CL_EXTRACT_REV_WRAP, CL_F_IS_ORF_REV_WRAP, CL_F_TRANSLATION_REV_WRAP),
     "C15-F3": lambda clause, case: clause == CL_WHOLE,
-    "C15-F4": lambda clause, case: clause in (CL_F_GAP_INNER, CL_F_EXC_INNER),
+    "C15-F4": lambda clause, case: clause == CL_F_GAP_INNER,
     "C15-F5": lambda clause, case: clause == CL_F_GAP_HIDDEN,
+    "C15-F6": lambda clause, case: clause == CL_F_EXC_SHORT,
 }
